@@ -3,7 +3,7 @@
    used for the core fragment.  Cnl/Core.v: the core fragment F0, its compile model (byte-exact on F0), grounding, and the reading. *)
 Require Import Coq.Strings.String Coq.Lists.List Coq.Bool.Bool.
 Require Import Coq.ZArith.ZArith Lia.
-Require Import Cnl2aspV.Asp.Ground Cnl2aspV.Cnl.Core Cnl2aspV.Cnl.CoreProofs Cnl2aspV.Cnl.CoreOneOf Cnl2aspV.Cnl.CoreDef Cnl2aspV.Cnl.CoreChoice Cnl2aspV.Cnl.CoreWhere Cnl2aspV.Cnl.Comparison Cnl2aspV.Cnl.CoreProgram.
+Require Import Cnl2aspV.Asp.Ground Cnl2aspV.Cnl.Core Cnl2aspV.Cnl.CoreProofs Cnl2aspV.Cnl.CoreOneOf Cnl2aspV.Cnl.CoreDef Cnl2aspV.Cnl.CoreChoice Cnl2aspV.Cnl.CoreChoiceEach Cnl2aspV.Cnl.CoreWhere Cnl2aspV.Cnl.Comparison Cnl2aspV.Cnl.CoreProgram.
 Import ListNotations.
 
 (* for hierarchical ground programs (no predicate depends on itself): I is a stable model iff it satisfies the constraints and
@@ -167,6 +167,35 @@ Example C01_choice_example :
   print_program (compile_sentence s (SChoice c)) = ("1 <= {host(RM_D,SHLF_D): shelf(SHLF_D)} <= 1 :- room(RM_D)." ++ Str.nl)%string.
 Proof. vm_compute. repeat split. discriminate. Qed.
 
+(* ... and WITH for-each ("Every c can <verb> [cardinality] a d for each e."): the bounds hold in I exactly when for every
+   declared e and every declared subject the number of distinct declared objects related to the subject FOR THAT e is within
+   the stated bounds (three pairwise different variables). *)
+Theorem C01_choice_for_each_bounds_partial :
+  forall (s : spec) (U : list string) (I : interp) (c : choice) (e : string),
+    ch_foreach c = Some e ->
+    var_of s (ch_subj c) (ch_slabel c) <> var_of s (ch_obj c) (ch_olabel c) ->
+    auto_var s e <> var_of s (ch_subj c) (ch_slabel c) -> auto_var s e <> var_of s (ch_obj c) (ch_olabel c) ->
+    (forall z, In z U -> holds I (atom_text e [z]) = Util.mem_string z (dom_of s e)) ->
+    (forall x, In x U -> holds I (atom_text (ch_subj c) [x]) = Util.mem_string x (dom_of s (ch_subj c))) ->
+    (forall y, In y U -> holds I (atom_text (ch_obj c) [y]) = Util.mem_string y (dom_of s (ch_obj c))) ->
+    incl (dom_of s e) U -> incl (dom_of s (ch_subj c)) U -> incl (dom_of s (ch_obj c)) U ->
+    NoDup U -> NoDup (dom_of s (ch_obj c)) ->
+    constraints_ok I (flat_map (ground_rule U) (compile_sentence s (SChoice c))) = r_sentence s I (SChoice c).
+Proof. exact each_choice_bounds_correct. Qed.
+Print Assumptions C01_choice_for_each_bounds_partial.
+
+Example C01_choice_for_each_example :
+  let s := {| concepts := [{| c_name := "room"; c_key := "id"; c_dom := DRange 1 1 |}; {| c_name := "shelf"; c_key := "id"; c_dom := DRange 1 2 |};
+                           {| c_name := "day"; c_key := "id"; c_dom := DRange 1 2 |}]; sentences := [] |} in
+  let c := {| ch_subj := "room"; ch_slabel := None; ch_verb := {| v_word := "host"; v_copula := false; v_prep := None |}; ch_card := CExactly 1;
+              ch_obj := "shelf"; ch_olabel := None; ch_foreach := Some "day" |} in
+  let base := ["room(1)"; "shelf(1)"; "shelf(2)"; "day(1)"; "day(2)"]%string in
+  auto_var s "day" <> var_of s (ch_subj c) (ch_slabel c) /\ auto_var s "day" <> var_of s (ch_obj c) (ch_olabel c) /\
+  r_sentence s (("host(1,1,1)" :: "host(2,1,2)" :: base)%string) (SChoice c) = true /\
+  r_sentence s (("host(1,1,1)" :: "host(1,1,2)" :: "host(2,1,2)" :: base)%string) (SChoice c) = false /\
+  print_program (compile_sentence s (SChoice c)) = ("1 <= {host(DY_D,RM_D,SHLF_D): shelf(SHLF_D)} <= 1 :- day(DY_D), room(RM_D)." ++ Str.nl)%string.
+Proof. vm_compute. repeat split; discriminate. Qed.
+
 (* ... and the single-clause constraint restricted by a comparison of its labels ("..., where X is different from Y" and every
    other comparison phrase of the language, either label on either side): the ground constraints of the compiled rule (instances
    whose comparison is false are not emitted) hold in I exactly when no pair of declared values that meets the comparison
@@ -202,7 +231,7 @@ Proof. vm_compute. repeat split. tauto. Qed.
    constraint-and-bounds part of stability of the ground program (every ground constraint and every cardinality bound of
    Asp/Ground.v: bounds_ok) holds in I exactly when I meets the reading of every constraint and choice sentence -- for the
    sentence kinds with an end-to-end theorem (named instances, single-clause constraints with or without a 'where' comparison,
-   choice sentences without for-each; derived definitions may be present, they contribute no constraint), and every
+   choice sentences with or without for-each; derived definitions may be present, they contribute no constraint), and every
    interpretation that holds exactly the declared values of the declared concepts.  With C01_hierarchical_stable
    (stable = bounds + closed + supported) and C01_single_clause_definition_partial (closed + supported for a definition) what is
    left of the full statement is supportedness of the chosen atoms and the concept facts.  Partial. *)
